@@ -10,6 +10,7 @@ import Driver.Drv.PushTx
 import Driver.Drv.Rescan
 import Driver.Drv.Store
 import Driver.Drv.Subs
+import Driver.Drv.Utxo
 namespace Driver
 
 def drivers : List (String × CaseFn) := [
@@ -24,6 +25,7 @@ def drivers : List (String × CaseFn) := [
   ("pushtx", Driver.Drv.PushTx.runCase),
   ("rescan", Driver.Drv.Rescan.runCase),
   ("store", Driver.Drv.Store.runCase),
-  ("subs", Driver.Drv.Subs.runCase)]
+  ("subs", Driver.Drv.Subs.runCase),
+  ("utxo", Driver.Drv.Utxo.runCase)]
 
 end Driver
